@@ -34,6 +34,7 @@ type Clause struct {
 	Pred   string // name of the synthesized predicate function
 	// for loop clauses: the locals passed to the predicate, in order
 	Locals []string
+	Using  []string // "using(a, b)": the labelled hypotheses the proof of this clause needs (nil: all)
 }
 
 // Contract is the set of clauses attached to one function.
@@ -126,6 +127,17 @@ func parseContracts(pkgPath, file string, src []byte) ([]*Contract, error) {
 			}
 		case "props":
 			cur.Props = append(cur.Props, strings.Fields(rest)...)
+		}
+		if strings.HasPrefix(cl.Expr, "using(") {
+			if j := strings.Index(cl.Expr, ")"); j > 0 {
+				cl.Using = []string{}
+				for _, u := range strings.Split(cl.Expr[len("using("):j], ",") {
+					if u = strings.TrimSpace(u); u != "" {
+						cl.Using = append(cl.Using, u)
+					}
+				}
+				cl.Expr = strings.TrimSpace(cl.Expr[j+1:])
+			}
 		}
 		cur.Clauses = append(cur.Clauses, cl)
 		last = cl
@@ -885,7 +897,9 @@ func (w *World) processRepoPackageOnce(p *packages.Package, imp types.Importer, 
 			"forall":       "func forall(lo, hi int, p func(k int) bool) bool { for k := lo; k < hi; k++ { if !p(k) { return false } }; return true }\n",
 			"exists":       "func exists(lo, hi int, p func(k int) bool) bool { for k := lo; k < hi; k++ { if p(k) { return true } }; return false }\n",
 			"forallKeys":   "func forallKeys[V any](m map[string]V, p func(k string) bool) bool { for k := range m { if !p(k) { return false } }; return true }\n",
+			"forallStrings": "func forallStrings(p func(k string) bool) bool { return true }\n",
 			"vcIter":       "func vcIter() int { return 0 }\n",
+			"vcSortPerm":   "func vcSortPerm(i int) int { return i }\n",
 			"vcSame":       "func vcSame[T any](a, b T) bool { return fmt.Sprintf(\"%p\", any(a)) == fmt.Sprintf(\"%p\", any(b)) }\n",
 			"vcWriteCount": "func vcWriteCount() int { return 0 }\n",
 			"vcWritten":    "func vcWritten() []byte { return nil }\n",
